@@ -1,4 +1,5 @@
 SPECIFICATION Spec
+CONSTANT Ser = FALSE
 CONSTANT Bar = FALSE
 CONSTANT Pop = "same"
 INVARIANT NeverOverlap
